@@ -288,8 +288,24 @@ class Check:
               f'replayed={s.replayed} known={len(s.known_hits)} violations={len(s.violations)} wall={ev["wall_s"]}s', flush=True)
         return 1 if s.violations else (2 if s.inconclusive else 0)
 
+def replay_file(chk):
+    """`./check <ID> --replay <file>`: re-run the recorded concrete case of a reported violation against the current /repo build and print what the real code does now"""
+    rec = json.load(open(chk.replay_file)); case = rec.get('case') or {}
+    print(f'REPLAY property={rec.get("property")} role={rec.get("role")}\n  recorded: {rec.get("what", "")[:600]}')
+    if isinstance(case, dict) and case.get('op'):
+        if case.get('fresh_processes') or rec.get('role', '').endswith('-order'):
+            outs = chk.native_fresh({k: v for k, v in case.items() if k != 'fresh_processes'}, int(case.get('fresh_processes', 8)))
+            print(f'  now ({len(outs)} fresh processes): {len({json.dumps(o, sort_keys=True) for o in outs})} distinct answers; first: {json.dumps(outs[0])[:600]}')
+        else:
+            print(f'  now: {json.dumps(chk.native(case))[:1200]}')
+    else:
+        print('  rule-level counterexample (no concrete case recorded); run the check itself to re-decide it')
+    if chk._replay: chk._replay.close()
+    return 0
+
 def run_check(pid, body):
     chk = Check(pid)
+    if chk.replay_file: sys.exit(replay_file(chk))
     try:
         body(chk)
         rc = chk.finish()
